@@ -106,7 +106,7 @@ func genNeg(r *Rng) Sx {
 		// a filter or the handler itself already put a Content-Type on the response before the entity is written
 		preset = r.Pick([]string{"text/plain", "text/plain; charset=utf-8", "application/octet-stream", "application/json; charset=utf-8"})
 	}
-	return L(Strs(registered), Strs(produces), A(dflt), A(genAccept(r, produces)), B(r.Pct(10)), A(preset))
+	return L(Strs(registered), Strs(produces), A(dflt), A(genAccept(r, produces)), B(r.Pct(10)), A(preset), B(r.Pct(35)))
 }
 
 type negValue struct {
@@ -120,6 +120,10 @@ func runNeg(raw Sx) (Sx, Sx) {
 	if len(sxList(raw)) > 5 {
 		preset = sxStr(sxNth(raw, 5))
 	}
+	compact := len(sxList(raw)) > 6 && sxBool(sxNth(raw, 6)) // PrettyPrintResponses = false: the other writer branch
+	oldPretty := restful.PrettyPrintResponses
+	restful.PrettyPrintResponses = !compact
+	defer func() { restful.PrettyPrintResponses = oldPretty }()
 	reg := map[string]restful.EntityReaderWriter{}
 	for _, k := range registered {
 		if k == "application/xml" {
@@ -170,7 +174,7 @@ func runNeg(raw Sx) (Sx, Sx) {
 				}()
 				c.Dispatch(rec, q.HTTP())
 			}()
-			ct := rec.Header().Get("Content-Type")
+			ct := rec.Result().Header.Get("Content-Type") // as sent: the snapshot taken when the status was committed
 			dec := 0
 			var v negValue
 			if ct == "application/xml" {
@@ -234,7 +238,7 @@ func runNeg(raw Sx) (Sx, Sx) {
 		}
 		rows = append(rows, L(A(v.s), rank))
 	}
-	return L(rows, Strs(registered), Strs(produces), A(dflt), A(accept), B(trace), A(preset)), L(panicked, statuses, cts, decs, traceSame)
+	return L(rows, Strs(registered), Strs(produces), A(dflt), A(accept), B(trace), A(preset), B(compact)), L(panicked, statuses, cts, decs, traceSame)
 }
 
 // the distinct elements of a list, sorted by their printed form
